@@ -6,6 +6,7 @@
 package main
 
 import (
+	"context"
 	"encoding/json"
 	"flag"
 	"fmt"
@@ -35,6 +36,9 @@ type ReplayFile struct {
 	Hash      uint64         `json:"hash"`
 	Steps     int            `json:"steps"`
 	Minimised bool           `json:"minimised"`
+	// History: runs to execute first, in order, in the same process (generated from seed and
+	// index exactly as the worker generated them)
+	History *hlib.History `json:"history,omitempty"`
 }
 
 func flatten(tr []simrt.Decision) []int32 {
@@ -54,6 +58,7 @@ func unflatten(f []int32) []simrt.Decision {
 }
 
 var ownStrategy bool
+var noHistory bool
 
 var generators = map[string]func(seed uint64) *Scenario{"C14": genC14, "C15": genC15}
 
@@ -116,6 +121,13 @@ func runScenario(sc *Scenario, replay []simrt.Decision) *outcome {
 	})
 	simrt.EnableShared(false)
 	w.concurrent = false
+	if res.EndKind == "quiescent" {
+		for _, t := range sim.Tasks {
+			if t.Site >= 0 && !t.Exited() {
+				return &outcome{w: w, res: res, trouble: "the library started a goroutine (" + t.Name + ") that is still alive when every operation has returned: a background goroutine that outlives the run cannot be carried from one simulated run to the next - this harness cannot decide the property for such code"}
+			}
+		}
+	}
 	if numGC() != gc0 && len(sim.Races) > 0 {
 		// a collection ran during the run (memory limit): freed addresses may have been reused,
 		// the address-keyed race detector cannot be trusted for this run
@@ -129,6 +141,10 @@ func runScenario(sc *Scenario, replay []simrt.Decision) *outcome {
 	}
 	if !sc.RefFirst {
 		w.reference()
+	}
+	if simrt.ForeignGo > 0 {
+		o.trouble = "the library started a goroutine outside the simulated run (a background goroutine that outlives the run, e.g. a lazily started server): it would run outside the simulator's control in every later run - this harness cannot decide the property for such code"
+		return o
 	}
 	w.finish(res)
 	o.viol = w.viol
@@ -153,6 +169,7 @@ func main() {
 	verbose := flag.Bool("v", false, "verbose")
 	profileAlways := flag.Bool("profile", false, "profile kinds even for a single run")
 	flag.BoolVar(&freshChild, "fresh-child", false, "this process executes one run in fresh library state (first-use scenarios)")
+	flag.BoolVar(&noHistory, "no-history", false, "replay: ignore the recorded history of earlier runs")
 	flag.BoolVar(&ownStrategy, "own-strategy", false, "replay: ignore recorded decisions, use the scenario's seeded strategy")
 	flag.Parse()
 
@@ -167,6 +184,10 @@ func main() {
 	// the run either)
 	if *mode == "gen" || (*mode == "run" && (*count > 1 || *fresh > 0 || *profileAlways)) {
 		profileKinds()
+		if simrt.ForeignGo > 0 {
+			fmt.Fprintln(os.Stderr, "hconc: trouble: the library starts a background goroutine when it is used sequentially (outside any simulated run); it would run outside the simulator's control in every run - this harness cannot decide the property for such code")
+			os.Exit(2)
+		}
 	}
 	switch *mode {
 	case "gen":
@@ -210,6 +231,7 @@ func worker(prop string, base uint64, from, count, stride int, limit float64, de
 	}
 	start := time.Now()
 	seenClass := map[string]int{}
+	var history []int // run indices this process executed so far (not the fresh children)
 	var fallback []byte
 	fallbackSteps := 0
 	for k := 0; k < count; k++ {
@@ -230,10 +252,12 @@ func worker(prop string, base uint64, from, count, stride int, limit float64, de
 			if det {
 				args = append(args, "-det")
 			}
-			cmd := exec.Command(os.Args[0], args...)
+			cctx, ccancel := context.WithTimeout(context.Background(), 5*time.Minute)
+			cmd := exec.CommandContext(cctx, os.Args[0], args...)
 			cmd.Env = os.Environ()
 			cmd.Stderr = os.Stderr
 			err = cmd.Run()
+			ccancel()
 			b, rerr := os.ReadFile(tmp.Name())
 			os.Remove(tmp.Name())
 			if rerr != nil || len(b) == 0 {
@@ -263,6 +287,8 @@ func worker(prop string, base uint64, from, count, stride int, limit float64, de
 			sum.Trouble = fmt.Sprintf("run %d (seed %d): %s", i, sc.RunSeed, o.trouble)
 			break
 		}
+		histBefore := append([]int(nil), history...)
+		history = append(history, i)
 		w := o.w
 		sum.Runs++
 		sum.Steps += int64(o.res.Steps)
@@ -315,6 +341,7 @@ func worker(prop string, base uint64, from, count, stride int, limit float64, de
 				v.Scenario = scb
 				v.Trace = flatten(o.trace)
 				v.Hash = o.res.Hash
+				v.History = &hlib.History{Seed: base, Indices: histBefore}
 				sum.Violations = append(sum.Violations, v)
 				if verbose {
 					fmt.Fprintf(os.Stderr, "run %d seed %d: %s/%s %s: %s\n", i, sc.RunSeed, v.Oracle, v.Class, v.Site, v.Detail)
@@ -377,6 +404,13 @@ func replayMode(path, out string, verbose bool) int {
 		fmt.Fprintln(os.Stderr, "hconc:", err)
 		return 2
 	}
+	if rf.History != nil && len(rf.History.Indices) > 0 && !noHistory {
+		// bring the library into the state the worker had: same profiling, same earlier runs
+		profileKinds()
+		for _, idx := range rf.History.Indices {
+			runScenario(genFor(rf.Property, rf.History.Seed, idx), nil)
+		}
+	}
 	var dec []simrt.Decision
 	if !ownStrategy {
 		dec = unflatten(rf.Decisions)
@@ -403,7 +437,10 @@ func replayMode(path, out string, verbose bool) int {
 			fmt.Printf("REPRODUCED property=%s oracle=%s class=%s exact=%v\n", rf.Property, v.Oracle, v.Class, exact)
 			if out != "" {
 				res := ReplayFile{Property: rf.Property, RunSeed: rf.RunSeed, Tree: rf.Tree, Scenario: rf.Scenario, Decisions: flatten(o.trace),
-					Violation: v, Hash: o.res.Hash, Steps: o.res.Steps, Minimised: rf.Minimised}
+					Violation: v, Hash: o.res.Hash, Steps: o.res.Steps, Minimised: rf.Minimised, History: rf.History}
+				if noHistory {
+					res.History = nil
+				}
 				b, _ := json.MarshalIndent(res, "", " ")
 				if err := os.WriteFile(out, b, 0o644); err != nil {
 					fmt.Fprintln(os.Stderr, "hconc:", err)
@@ -423,6 +460,7 @@ type minimizer struct {
 	bestDec  []simrt.Decision
 	deadline time.Time
 	tries    int
+	hist     *hlib.History // earlier runs the violation depends on (nil: none)
 }
 
 // freshRun executes one candidate in a fresh child process (package-level library state
@@ -437,7 +475,7 @@ func (m *minimizer) freshRun(sc *Scenario, dec []simrt.Decision) ([]simrt.Decisi
 	outp := in.Name() + ".out"
 	defer os.Remove(in.Name())
 	defer os.Remove(outp)
-	rf := ReplayFile{Property: sc.Property, RunSeed: sc.RunSeed, Scenario: sc, Decisions: flatten(dec), Violation: m.target}
+	rf := ReplayFile{Property: sc.Property, RunSeed: sc.RunSeed, Scenario: sc, Decisions: flatten(dec), Violation: m.target, History: m.hist}
 	if dec == nil {
 		rf.Decisions = nil
 	}
@@ -580,12 +618,51 @@ func minimizeMode(in, out string, verbose bool) int {
 	}
 	m := &minimizer{target: rf.Violation, best: rf.Scenario, bestDec: unflatten(rf.Decisions), deadline: time.Now().Add(90 * time.Second)}
 	tr, ok := m.reproduces(rf.Scenario, m.bestDec)
+	if !ok && rf.History != nil && len(rf.History.Indices) > 0 {
+		// not alone in a fresh process: the violation depends on library state earlier runs of
+		// the worker left behind. Replay them first, and find out which of them matter.
+		m.hist = &hlib.History{Seed: rf.History.Seed, Indices: append([]int(nil), rf.History.Indices...)}
+		m.deadline = time.Now().Add(240 * time.Second)
+		if tr, ok = m.reproduces(rf.Scenario, m.bestDec); ok {
+			m.bestDec = tr
+			idx := m.hist.Indices
+			for chunk := (len(idx) + 1) / 2; chunk >= 1 && !time.Now().After(m.deadline); {
+				progress := false
+				for a := 0; a < len(idx); {
+					b := a + chunk
+					if b > len(idx) {
+						b = len(idx)
+					}
+					cand := append(append([]int(nil), idx[:a]...), idx[b:]...)
+					m.hist.Indices = cand
+					if tr2, ok2 := m.reproduces(m.best, m.bestDec); ok2 {
+						idx, m.bestDec, progress = cand, tr2, true
+					} else {
+						a = b
+					}
+					m.hist.Indices = idx
+					if time.Now().After(m.deadline) {
+						break
+					}
+				}
+				if chunk == 1 && !progress {
+					break
+				}
+				if chunk > 1 {
+					chunk /= 2
+				}
+			}
+			m.hist.Indices = idx
+		}
+	}
 	if !ok {
-		fmt.Fprintln(os.Stderr, "hconc: minimize: the recorded violation does not reproduce in-process")
+		fmt.Fprintln(os.Stderr, "hconc: minimize: the recorded violation does not reproduce in a fresh process")
 		return 3
 	}
 	m.bestDec = tr
-	m.run()
+	if m.hist == nil {
+		m.run()
+	}
 	final := cloneScenario(m.best)
 	ftr, fres, ok := m.freshRun(final, m.bestDec)
 	if !ok {
@@ -602,13 +679,16 @@ func minimizeMode(in, out string, verbose bool) int {
 		return n
 	}
 	res := ReplayFile{Property: rf.Property, RunSeed: rf.RunSeed, Tree: rf.Tree, Scenario: final, Decisions: flatten(o.trace),
-		Violation: *got, Hash: o.res.Hash, Steps: o.res.Steps, Minimised: true}
+		Violation: *got, Hash: o.res.Hash, Steps: o.res.Steps, Minimised: true, History: m.hist}
 	res.Violation.Scenario = nil
 	res.Violation.Trace = nil
 	b, _ := json.MarshalIndent(res, "", " ")
 	if err := os.WriteFile(out, b, 0o644); err != nil {
 		fmt.Fprintln(os.Stderr, "hconc:", err)
 		return 2
+	}
+	if m.hist != nil {
+		fmt.Printf("minimised: depends on library state left by earlier runs of the worker: history %d->%d runs\n", len(rf.History.Indices), len(m.hist.Indices))
 	}
 	fmt.Printf("minimised: tasks %d->%d, ops %d->%d, decisions %d->%d, %d candidate runs\n", len(rf.Scenario.Tasks), len(final.Tasks), nops(rf.Scenario), nops(final), len(rf.Decisions)/2, len(o.trace), m.tries)
 	return 0
